@@ -922,3 +922,220 @@ def judge_impl(output_text, methods=None):
         elif kv.get("a_unchanged") != "1":
             fails.append({"key": "impl-cow-" + m, "step": t[1], "slot": -1, "what": l})
     return fails
+
+
+# ------------------------------------------------------------------ deferred observation ("lazy evaluation is unobservable")
+# Histories of PURE CSG expressions (constructors, Booleans, lazy transforms, copies, compound assignment) run in
+# mode lazy0: objects are created and NOT observed until an explicit look, several steps later; in between, derived
+# objects that were never evaluated are reassigned (x op= y, copy/move assignment over x) or dropped.  Reference
+# evaluation: the SAME history in mode eager (every object is evaluated right after it is built, before any drop can
+# interfere).  Oracle: a late observation equals the reference value of the same object in status and volume (tolerances: the association of a flattened Boolean tree may differ between the two runs, so the
+# mesh itself is not compared).  key = lazy-evaluation-observable.
+import struct as _struct
+
+DEFER_KEY = "lazy-evaluation-observable"
+
+
+def gen_deferred(rng, hid, nsteps):
+    ops, live, unseen = [], [], set()
+    def free():
+        f = [s for s in range(NSLOT) if s not in live]
+        return rng.choice(f) if f and len(live) < MAXLIVE else None
+    def ctor():
+        d = free()
+        if d is None: return None
+        k = rng.choice(["cube", "cube", "sph", "cyl", "tet"])
+        if k == "cube": ops.append("cube:%d:%d:%d:%d:%d" % (d, _r(rng, 2, 8), _r(rng, 2, 8), _r(rng, 2, 8), rng.randint(0, 1)))
+        elif k == "sph": ops.append("sph:%d:%d:%d" % (d, _r(rng, 2, 6), rng.choice([4, 6, 8])))
+        elif k == "cyl": ops.append("cyl:%d:%d:%d:%d:%d:%d" % (d, _r(rng, 2, 8), _r(rng, 1, 4), rng.choice([0, 1, 2, 4]), rng.choice([4, 6, 8]), rng.randint(0, 1)))
+        else: ops.append("tet:%d" % d)
+        live.append(d); unseen.add(d)
+        return d
+    def lazyxf(s):
+        d = free()
+        if d is None: return None
+        k = rng.choice(["tr", "tr", "tr", "rot", "sc", "xf"])
+        if k == "tr": ops.append("tr:%d:%d:%d:%d:%d" % (d, s, _r(rng, -9, 9), _r(rng, -4, 4), _r(rng, -4, 4)))
+        elif k == "rot": ops.append("rot:%d:%d:%d:%d:%d" % (d, s, _r(rng, 0, 6), _r(rng, 0, 6), _r(rng, 0, 6)))
+        elif k == "sc": ops.append("sc:%d:%d:%d:%d:%d" % (d, s, _nz(rng, -6, 6), _nz(rng, 1, 6), _nz(rng, 1, 6)))
+        else: ops.append("xf:%d:%d:%d" % (d, s, rng.choice([0, 1, 4, 5])))
+        live.append(d); unseen.add(d)
+        return d
+    def boolean(a, b):
+        d = free()
+        if d is None: return None
+        ops.append("bool:%d:%d:%d:%d:%d" % (d, a, b, rng.choice([0, 0, 1, 1, 2]), rng.randint(0, 1)))
+        live.append(d); unseen.add(d)
+        return d
+    def drop(s):
+        if s in live:
+            ops.append("drop:%d" % s); live.remove(s); unseen.discard(s)
+    for _ in range(2):
+        ctor()
+    guard = 0
+    while len(ops) < nsteps and guard < 400:
+        guard += 1
+        r = rng.random()
+        if r < 0.45 and len(live) >= 2:
+            # the scenario: x lazy Boolean; transformed variants of x (kept unobserved, or one observed early);
+            # x rebound (x op= y / assigned over) and dropped without ever being evaluated; look at the variants late
+            a, b = rng.sample(live, 2)
+            x = boolean(a, b)
+            if x is None:
+                drop(rng.choice(live)); continue
+            vs = [v for v in (lazyxf(x) for _ in range(rng.randint(1, 3))) if v is not None]
+            if vs and rng.random() < 0.4:
+                ops.append("look:%d" % vs[0]); unseen.discard(vs[0])
+            for _ in range(rng.randint(1, 2)):
+                y = rng.choice([s for s in live if s != x]) if rng.random() < 0.7 else ctor()
+                if y is None or y == x: continue
+                ops.append("cadd:%d:%d:%d" % (x, y, rng.randint(0, 2)))
+            how = rng.random()
+            if how < 0.6:
+                drop(x)
+            elif how < 0.8:
+                o = [s for s in live if s != x]
+                if o: ops.append("%s:%d:%d" % (rng.choice(["cpa", "cpa", "mva"]), x, rng.choice(o)))
+                if ops[-1].startswith("mva"):
+                    src = int(ops[-1].split(":")[2])      # the moved-from slot is dead: free it
+                    if src in live:
+                        ops.append("drop:%d" % src); live.remove(src); unseen.discard(src)
+            for _ in range(rng.randint(0, 2)):
+                if rng.random() < 0.5: ctor()
+                elif len(live) >= 2: boolean(*rng.sample(live, 2))
+            for v in vs:
+                if v in live and rng.random() < 0.8:
+                    ops.append("look:%d" % v); unseen.discard(v)
+        elif r < 0.55:
+            ctor()
+        elif r < 0.68 and len(live) >= 2:
+            boolean(*rng.sample(live, 2))
+        elif r < 0.76 and live:
+            lazyxf(rng.choice(live))
+        elif r < 0.82 and live:
+            d = free()
+            if d is not None:
+                ops.append("cp:%d:%d" % (d, rng.choice(live))); live.append(d); unseen.add(d)
+        elif r < 0.88 and len(live) >= 2:
+            xs = [rng.choice(live) for _ in range(rng.randint(2, 3))]
+            d = free()
+            if d is not None:
+                ops.append("batch:%d:%d:%s" % (d, rng.randint(0, 2), ":".join(map(str, xs)))); live.append(d); unseen.add(d)
+        elif r < 0.94 and live:
+            drop(rng.choice(live))
+        elif live:
+            s = rng.choice(live)
+            ops.append("look:%d" % s); unseen.discard(s)
+        if len(live) > MAXLIVE - 3:
+            drop(rng.choice(live))
+    return ops[:60]
+
+
+def _g_parse(output_text, hid):
+    """-> (events, obs): events = canonical list of N/S/X lines (to check that both runs did the same things),
+    obs = {(slot, born_step): [(step, fields)]} from G lines."""
+    cur, born, events, obs = {}, {}, [], {}
+    for l in output_text.splitlines():
+        t = l.split()
+        if len(t) < 3 or t[1] != hid:
+            continue
+        tag, step = t[0], t[2]
+        if tag == "N":
+            slot, how = int(t[3]), t[4]
+            events.append((step, slot, how))
+            if how == "new" or how.startswith("copy:"):
+                born[slot] = step
+            elif how.startswith("moved:"):
+                src = int(how[6:])
+                if src in born: born[slot] = born[src]
+            elif how == "dead":
+                born.pop(slot, None)
+        elif tag in ("S", "E"):
+            events.append((step, tag))
+        elif tag == "X":
+            events.append((step, "X", "observe" if "observe:" in l else "op"))
+        elif tag == "G":
+            for kv in t[3:]:
+                s, v = kv.split("=", 1)
+                s = int(s)
+                if s in born:
+                    obs.setdefault((s, born[s]), []).append((step, v.split(",")))
+    return events, obs
+
+
+def _dbl(h):
+    return _struct.unpack(">d", bytes.fromhex(h))[0]
+
+
+def judge_deferred(history_line, out_lazy, out_eager):
+    """Late observations of the lazy0 run against the reference (eager) run of the same history."""
+    hid = hid_of(history_line)
+    ev_l, obs_l = _g_parse(out_lazy, hid)
+    ev_e, obs_e = _g_parse(out_eager, hid)
+    norm = lambda ev: [e for e in ev if not (len(e) == 3 and e[1] == "X" and e[2] == "observe")]
+    if norm(ev_l) != norm(ev_e) or any(len(e) == 3 and e[1] == "X" for e in ev_l + ev_e):
+        return None          # the two runs are not comparable (an exception or a skipped op)
+    fails = []
+    import math
+    for key, lst in sorted(obs_l.items()):
+        ref = obs_e.get(key)
+        if not ref:
+            continue
+        r = ref[0][1]
+        for step, g in lst:
+            if g[0] != r[0]:
+                continue
+            what = None
+            if g[1] != r[1]:
+                what = "Status %s, reference %s" % (g[1], r[1])
+            else:
+                v1, v2 = _dbl(g[3]), _dbl(r[3])
+                bb1 = [_dbl(x) for x in g[5:11]]; bb2 = [_dbl(x) for x in r[5:11]]
+                fin = [abs(x) for x in bb1 + bb2 if math.isfinite(x)]
+                scale = max([1.0] + fin)
+                tolv = 1e-6 * scale ** 3 + 1e-9
+                if not (math.isfinite(v1) and math.isfinite(v2)):
+                    if (math.isnan(v1) != math.isnan(v2)) or (not math.isnan(v1) and v1 != v2):
+                        what = "volume %r, reference %r" % (v1, v2)
+                elif abs(v1 - v2) > tolv:
+                    what = "volume %.9g (IsEmpty=%s), reference %.9g (IsEmpty=%s)" % (v1, g[2], v2, r[2])
+                # (bounding boxes are NOT compared: zero-volume remnants of degenerate Booleans such as (A - B) ^ B
+                #  survive or vanish depending on the association of the evaluated tree; that is C02/C03 territory)
+            if what:
+                fails.append({"key": DEFER_KEY, "step": step, "slot": key[0],
+                              "what": "object born at step %s in slot %d, first observed at step %s after other objects were "
+                                      "reassigned/dropped unevaluated: %s (reference = the same history with every object "
+                                      "evaluated when built)" % (key[1], key[0], step, what)})
+                break
+    return fails
+
+
+def run_deferred(exe, ops, hid="1", timeout=30):
+    """Runs one op list in lazy0 and eager mode; -> list of failures (hash oracle on both runs + differential)."""
+    ll, le = line(hid, "lazy0", ops), line(hid, "eager", ops)
+    rc1, o1 = run(exe, [ll], timeout)
+    rc2, o2 = run(exe, [le], timeout)
+    if rc1 != 0 or rc2 != 0:
+        return [{"key": "crash", "step": "?", "slot": -1, "what": "harness exit %s/%s" % (rc1, rc2)}]
+    fs = judge(ll, o1, strict=False) + judge(le, o2, strict=False)
+    d = judge_deferred(ll, o1, o2)
+    return fs + (d or [])
+
+
+def shrink_deferred(exe, ops, key, max_runs=300):
+    """greedy delta debugging on the op list (invalid ops are skipped by the harness)"""
+    runs = [0]
+    def bad(o):
+        runs[0] += 1
+        return any(f["key"] == key for f in run_deferred(exe, o))
+    cur = list(ops)
+    n = len(cur)
+    while n > 0 and runs[0] < max_runs:          # cut the tail
+        if bad(cur[:n - 1]): cur = cur[:n - 1]; n -= 1
+        else: break
+    i = 0
+    while i < len(cur) and runs[0] < max_runs:
+        t = cur[:i] + cur[i + 1:]
+        if bad(t): cur = t
+        else: i += 1
+    return cur
